@@ -59,7 +59,7 @@ pub struct Ctx {
 /// The `check` script builds them next to the main binary; the main run spawns each applicable one
 /// (`VERIF_VARIANT=<name>`), which runs the same property code against the library crates built
 /// with that configuration and hands its failures back on a `WORKER_RESULT` line.
-pub const VARIANTS: [(&str, &str, &[&str], &str); 6] = [
+pub const VARIANTS: [(&str, &str, &[&str], &str); 7] = [
     (
         "stack128",
         "/verif/.target/release/nexrad-mc",
@@ -89,6 +89,12 @@ pub const VARIANTS: [(&str, &str, &[&str], &str); 6] = [
         "/verif/.target/v-x2/release/nexrad-mc",
         &["C02", "C03", "C06", "C08", "C10", "C11", "C12", "C13", "C14", "C15", "C16", "C17"],
         "nexrad-decode with uom but without nexrad-model; nexrad-data with aws, serde, bincode only; nexrad-model without features",
+    ),
+    (
+        "dec",
+        "/verif/.target/v-dec/release/nexrad-mc",
+        &["C01", "C03", "C04", "C05", "C06", "C07", "C09", "C14"],
+        "the whole decode stack without aws: nexrad-data with decode + nexrad-model but no aws feature (no aws module, no reqwest/tokio/xml in the library, no AWS error variants); nexrad-decode and nexrad-model with all features - a consumer that reads volume files from disk",
     ),
     (
         "aws",
